@@ -180,6 +180,7 @@ func (f *fNatsTransport) Request(ctx FContext, data []byte) (thrift.TTransport, 
 		return nil, thrift.NewTTransportException(TRANSPORT_EXCEPTION_UNKNOWN, err.Error())
 	}
 	defer f.registry.Unregister(ctx)
+	defer verifYield("request.beforeUnregister", verifOpID(ctx))
 
 	if err := f.checkMessageSize(data); err != nil {
 		return nil, err
